@@ -19,7 +19,7 @@ import (
 	"verif/harness/world"
 )
 
-const c06Rule = "rapid: a valid AuthnRequest (all optional parts on/off, four prefix styles, both bindings) with 0..2 defects injected from a catalogue of 45 (decode layers, root element, Issuer absent/empty/unregistered/look-alike, ID, Version, Destination differing in host/path/case/slash/scheme/prefix, Conditions offsets from 1 s to 10 years and garbage lexical forms, unknown SAMLEncoding, SigAlg without Signature, empty/missing SAMLRequest) or 1..3 byte-level mutations of the XML, against IdP configurations with static / host-derived / Forwarded-derived issuers and default / custom-path / external-URL SSO endpoints. Oracle: accepted => the harness's independent evaluation of the sent bytes finds no violated validity condition. Instants within 3 s of a boundary, lexical timestamp forms outside the UTC 'Z' form, duplicated Issuer/Conditions, empty Destination and URL-equivalent Destinations are executed and counted but not asserted. Non-trivial: one or two defects injected (or a byte mutation that leaves the message decodable). Distinct by (defect set, configuration vector, binding)."
+const c06Rule = "rapid: a valid AuthnRequest (all optional parts on/off, four prefix styles, both bindings) with 0..2 defects injected from a catalogue of 45 (decode layers, root element, Issuer absent/empty/unregistered/look-alike, ID, Version, Destination differing in host/path/case/slash/scheme/prefix, Conditions offsets from 1 s to 10 years and garbage lexical forms, unknown SAMLEncoding, SigAlg without Signature, empty/missing SAMLRequest) or 1..3 byte-level mutations of the XML, in one case of three behind a valid request of the same provider with the same ID (accepted, or lost in a DEFLATE stream that delivered the whole document and then broke off), against IdP configurations with static / host-derived / Forwarded-derived issuers and default / custom-path / external-URL SSO endpoints. Oracle: accepted => the harness's independent evaluation of the sent bytes finds no violated validity condition. Instants within 3 s of a boundary, lexical timestamp forms outside the UTC 'Z' form, duplicated Issuer/Conditions, empty Destination and URL-equivalent Destinations are executed and counted but not asserted. Non-trivial: one or two defects injected (or a byte mutation that leaves the message decodable). Distinct by (defect set, configuration vector, binding)."
 
 func genC06Case(t *rapid.T) SSOCase {
 	spec := genSSOWorld(t, worldOpts{minACS: 1, maxACS: 2, issuerModes: []string{"static", "static", "host", "forwarded"}, customSSO: true, maxSPs: 3, entityIDChars: true})
@@ -53,6 +53,14 @@ func genC06Case(t *rapid.T) SSOCase {
 			}
 			c.Defects = append(c.Defects, d)
 			applyModelDefect(&c, d, host)
+		}
+		if rapid.IntRange(0, 2).Draw(t, "valid-before") == 0 {
+			// a moment ago the same provider sent a valid request (with the same ID, when the defective one has one) - accepted, or
+			// lost in a DEFLATE stream that broke off after the whole document: what was valid then lends nothing to this request
+			c.Hist = &History{SP: c.SP, Warmups: rapid.SampledFrom([][]string{{"sso"}, {"sso-redirect"}, {"sso-broken-deflate"}, {"sso-redirect", "sso-broken-deflate"}, {"sso-broken-deflate", "metadata"}}).Draw(t, "valid-before-kind")}
+			if c.Req.ID != A && c.Req.ID != "" {
+				c.Hist.ReuseID = c.Req.ID
+			}
 		}
 	case "valid":
 		if rapid.Bool().Draw(t, "history") {
